@@ -851,7 +851,7 @@ def shrink(ctx, exe, h, want):
             return None
         return [sig(v) == want for v in vs]
 
-    for _ in range(8):
+    for _ in range(6):
         n = len(cur["blocks"])
         if n <= 1:
             break
@@ -976,7 +976,7 @@ def process(ctx, exe, batch, known, stats, do_shrink=True):
         if stats.get("viol:" + sk, 0) >= MAX_PER_SIG:
             stats["viol:" + sk] += 1
             continue
-        if do_shrink and len(h["blocks"]) > 2 and stats.get("viol:" + sk, 0) == 0 and stats.get("shrinks", 0) < 6:
+        if do_shrink and len(h["blocks"]) > 2 and stats.get("viol:" + sk, 0) == 0 and stats.get("shrinks", 0) < 3:
             stats["shrinks"] = stats.get("shrinks", 0) + 1
             hs = shrink(ctx, exe, h, sig(v))
             if hs is not h:
